@@ -7,6 +7,16 @@ import (
 	"github.com/biogo/hts/internal/vrt"
 )
 
+// verifLen picks a write length: every length 0..max, or (parameter lens=1) the
+// boundary lengths around one and two blocks only.
+func verifLen(name string, max int) int {
+	if vrt.Param("lens", 0) == 1 {
+		l := []int{0, 1, BlockSize - 1, BlockSize, BlockSize + 1, 2 * BlockSize, 2*BlockSize + 1}
+		return l[vrt.Choice(name, len(l))]
+	}
+	return vrt.Choice(name, max+1)
+}
+
 // verifWriteScript performs up to CALLS calls chosen from {Write(b), Flush, Wait}
 // followed by Close, and returns everything written and the per-call write sizes.
 func verifWriteScript(w *Writer) (data []byte, ok bool) {
@@ -16,7 +26,7 @@ func verifWriteScript(w *Writer) (data []byte, ok bool) {
 	for i := 0; i < ncalls; i++ {
 		switch vrt.Choice("call", 3) {
 		case 0:
-			n := vrt.Choice("wlen", MAXW+1)
+			n := verifLen("wlen", MAXW)
 			b := vrt.Bytes("payload", n)
 			k, err := w.Write(b)
 			vrt.Assert(err == nil, "Write-no-error")
